@@ -721,11 +721,12 @@ theorem absDepth_operands_present {P : Prog F} {entry : Nat} {d : Array (Option 
   obtain ⟨es, he, _⟩ := check_at (absDepth_checked h) hd
   exact ⟨es, he⟩
 
-/-- The statement that remains open (decided per program by running the verified analysis, suite ABSDEPTH, on the
-implementation's own instruction stream): every compiled program in which `^~` occurs in tail positions only —
-in every body, not just the top-level one — is balanced. Operand-position `^~` (`{ 1 + (^~ 2) }`) is rejected by
-the analysis by design: the depth at the body's entry then differs by path (DESIGN §6 C06 "Decision recorded
-here"); an else-chain without a final arm is rejected with depth 0 at `EndExpression` (finding #6). -/
+/-- The completeness statement for compiled code, as a predicate on a compiler and a well-formedness condition.
+It is PROVED for `Abs.compile` and `WFBalanced` in Props/C01Compile.lean (`C06.C06_compile_balanced`, with
+`C06_compile_balanced_sound`): every compiled program whose bodies are well formed and contain `^~` in tail positions
+only — in every body, not just the top-level one — is balanced. Operand-position `^~` (`{ 1 + (^~ 2) }`) is rejected by
+the analysis by design: the depth at the body's entry then differs by path (DESIGN §6 C06 "Decision recorded here");
+an else-chain without a final arm is rejected with depth 0 at `EndExpression` (finding #6). -/
 def C06_compile_balanced_statement {Prg : Type} (compile : Prg → Prog F) (WF : Prg → Prop) : Prop :=
   ∀ p, WF p → ∃ d, absDepth (compile p) ((compile p).jumps[0]?.getD 0) = some d
 
